@@ -3,7 +3,7 @@
 PROPS = {
     'C15': dict(
         verus=['tile_bbox'],
-        kani=['pyramid'],
+        kani=['pyramid', 'tile_bbox'],
         not_decided=[
             'y-axis geographic round trip through libm tan/ln/exp/atan (numerical error analysis out of reach)',
         ],
